@@ -150,8 +150,8 @@ class RowDenoisingTransformer(BaseEstimator, TransformerMixin):
 
         """
         if scipy.sparse.issparse(X):
-            X.eliminate_zeros()
-            if X.nnz == 0:
+            # all stored values zero?  (read only: count_nonzero() / eliminate_zeros() re-order X in place)
+            if not X.tocoo().data.any():
                 warn("Cannot fit an empty matrix")
                 return self
             self.background_model_ = np.squeeze(
